@@ -750,6 +750,34 @@ func (fg *FuncGen) trCall(x *SCall, env *SpecEnv, hint types.Type) Val {
 		cell := fmt.Sprintf("$%s:%s:%d", x.Fun, name, j)
 		srt := fmt.Sprintf("(Array Int %s)", enc.sortOf(t))
 		return Val{T: fmt.Sprintf("(select %s %s)", fg.ghostGet(env.st, cell, srt, ""), fg.asMathInt(k)), Typ: t}
+	case "callfn":
+		// callfn(F, k): the function value the k-th dynamic call through function type F went through
+		name := fg.calleeKey(x.Args[0], env)
+		k := arg(1, fg.mathInt())
+		t := fg.g.calleeArgType(name, -1)
+		if t == nil {
+			fg.specFail(env, "callfn: %s is not a traced function type", name)
+		}
+		return Val{T: fmt.Sprintf("(select %s %s)", fg.ghostGet(env.st, "$callfn:"+name, "(Array Int Int)", ""), fg.asMathInt(k)), Typ: t}
+	case "callobs":
+		// callobs(F, k, name): the value of F's `observe name` expression in the state the k-th call started in
+		name := fg.calleeKey(x.Args[0], env)
+		k := arg(1, fg.mathInt())
+		id, ok := x.Args[2].(*SIdent)
+		if !ok {
+			fg.specFail(env, "callobs(F, k, name)")
+		}
+		ob, pk := fg.g.observeOf(name, id.Name)
+		if ob == nil {
+			fg.specFail(env, "callobs: %s has no `observe %s`", name, id.Name)
+		}
+		t := fg.g.resolveType(ob.Type, pk)
+		if t == nil {
+			fg.specFail(env, "callobs: unknown type %s", ob.Type)
+		}
+		cell := fmt.Sprintf("$callobs:%s:%s", name, id.Name)
+		srt := fmt.Sprintf("(Array Int %s)", enc.sortOf(t))
+		return Val{T: fmt.Sprintf("(select %s %s)", fg.ghostGet(env.st, cell, srt, ""), fg.asMathInt(k)), Typ: t}
 	case "callseq":
 		name := fg.calleeKey(x.Args[0], env)
 		k := arg(1, fg.mathInt())
